@@ -155,6 +155,7 @@ pub fn run(args: &[String]) {
     let seed = seed_from_env() ^ 0x1234;
     let mut ns: Vec<usize> = (lo..hi).collect();
     ns.extend(crate::k1::structured(seed, nstruct, max_bits).into_iter().filter(|&n| n >= 1));
+    ns.extend(ANCHOR_LENS.iter().copied().filter(|&n| n >= hi && (n as u64) < (1u64 << max_bits)));
     let shared = Shared::new();
     let worst32 = std::sync::Mutex::new(0.0f64);
     let worst64 = std::sync::Mutex::new(0.0f64);
